@@ -879,5 +879,5 @@ func TestEvents(t *testing.T)     { vt.Run(t, prop, "TestEvents", genCase, check
 func TestConcurrent(t *testing.T) { vt.Run(t, prop, "TestConcurrent", genConc, checkConc) }
 
 func TestReplay(t *testing.T) {
-	vt.Replay(t, map[string]func(json.RawMessage) error{"TestEvents": vt.Decode(checkCase), "TestConcurrent": vt.Decode(checkConc), "TestSlowSubscriber": vt.Decode(checkSlow), "TestGreeting": vt.Decode(checkGreet)})
+	vt.Replay(t, map[string]func(json.RawMessage) error{"TestEvents": vt.Decode(checkCase), "TestConcurrent": vt.Decode(checkConc), "TestSlowSubscriber": vt.Decode(checkSlow), "TestGreeting": vt.Decode(checkGreet), "TestStalledSibling": vt.Decode(checkStalled)})
 }
